@@ -148,6 +148,46 @@ def make_cases(inputs, per_case, prefix):
         cases.append(Case("%s%d" % (prefix, i // per_case), lines, dict(inputs=chunk)))
     return cases
 
+FS_FILES = {
+    "ok.yar": "rule inc_ok { condition: true }\n",
+    "bad.yar": "rule inc_bad { condition: }\n",
+    "empty.yar": "",
+    "loop.yar": 'include "loop.yar"\n',
+    "sub/inner.yar": 'include "../ok.yar"\nrule inner { condition: inc_ok }\n',
+    "sub/innerbad.yar": 'include "../adir"\n',
+    "nul.yar": "rule a { condition: true }\n\x00\x01garbage",
+}
+FS_INPUTS = [
+    ("fs-ok", 'include "ok.yar"\nrule r { condition: inc_ok }'),
+    ("fs-dir", 'include "adir"\nrule r { condition: true }'),
+    ("fs-dir-slash", 'include "adir/"'),
+    ("fs-missing", 'include "missing.yar"'),
+    ("fs-bad", 'include "bad.yar"\nrule z { condition: true }'),
+    ("fs-empty", 'include "empty.yar"\nrule z { condition: true }'),
+    ("fs-loop", 'include "loop.yar"'),
+    ("fs-nested", 'include "sub/inner.yar"\nrule z { condition: inner }'),
+    ("fs-nested-dir", 'include "sub/innerbad.yar"'),
+    ("fs-twice", 'include "ok.yar"\ninclude "ok.yar"'),
+    ("fs-devnull", 'include "/dev/null"\nrule z { condition: true }'),
+    ("fs-emptyname", 'include ""'),
+    ("fs-nul", 'include "nul.yar"'),
+    ("fs-dot", 'include "."'),
+]
+
+
+def fs_cases(reps):
+    """the default (file system) include callback: regular files, directories, missing files, nesting, loops;
+    every compile must be diagnosed or succeed and the case must end with the descriptors it started with"""
+    cases = []
+    setup = ["fsbox", "mkdirp " + hx("adir"), "mkdirp " + hx("sub")] + ["mkfile %s %s" % (hx(k), hx(v.encode("latin-1"))) for k, v in FS_FILES.items()]
+    for i, (kind, text) in enumerate(FS_INPUTS):
+        lines = list(setup)
+        for _ in range(reps):
+            lines += ["cnew 0 fs", "cadd 0 - " + hx(text), "crules 0 0"]
+        lines += ["cnew 1", "cadd 1 - " + hx(SENTINEL), "crules 1 1", "buf 0 " + hx(b"xx needle"), "scan r1 mem 0 0 0 -"]
+        cases.append(Case("fs%d" % i, lines, dict(inputs=[(kind, text)] * reps, fs=True)))
+    return cases
+
 
 def check_case(chk, case, res, stats, single=False):
     """returns list of inputs to re-run alone (when the whole batch is implicated)"""
@@ -156,7 +196,7 @@ def check_case(chk, case, res, stats, single=False):
         if res.status.startswith("flaky") or res.status in ("missing", "harness"):
             chk.inconc("%s: %s" % (case.cid, res.status))
             return []
-        if not single and len(m["inputs"]) > 1:
+        if not single and len(m["inputs"]) > 1 and not m.get("fs"):
             return m["inputs"]
         kind, text = m["inputs"][0]
         w = dict(mutation=kind, source=text[:3000], source_hex=text.encode("latin-1", "replace").hex()[:6000])
@@ -316,7 +356,7 @@ def main(args):
     seed_texts = seeds(rng)
     cap = int((140 if args.tier == "quick" else 100000) * args.scale)
     inputs = sweep_inputs(rng, seed_texts, cap) + stressors()
-    cases = make_cases(inputs, 40, "b")
+    cases = make_cases(inputs, 40, "b") + fs_cases(6)
     stats = dict(inputs=0, rejected=0, accepted=0, nontrivial=set(), kinds={}, messages=set(), samples=[])
     results = harness.run_cases(exe, cases, "c07", cpu=300, batch=2)
     retry = []
@@ -336,7 +376,10 @@ def main(args):
         rule="(1) grammar-position sweep: for each of ~40 valid seed rules (hand-written ones covering every section of the "
              "grammar + outputs of the text/hex/regex/condition/rule generators) every truncation at and inside a token, "
              "every single-token deletion, duplication and swap with a token of another kind (capped per seed in the "
-             "quick tier); (2) size stressors around the lexer buffer, identifier limit, nesting depth, include errors; "
+             "quick tier); (2) size stressors around the lexer buffer, identifier limit, nesting depth, include errors "
+             "(in-memory include callback, and the default file-system callback on a private directory with regular, "
+             "empty, missing, nested, self-including files and directories; the harness compares the number of open "
+             "descriptors before and after every case); "
              "each input is compiled in the yrh harness under ASan+UBSan+LSan (40 per process, batches implicated in a "
              "crash/leak/hang are re-run input by input) and the diagnosis contract is checked; a sentinel compile+scan "
              "ends every batch; (3) libFuzzer (clang, ASan+UBSan+LSan) on yr_compiler_add_string + get_rules + destroy "
